@@ -164,6 +164,25 @@ let dispatch (cmd : string) (t : tree) : tree =
       let batches = r_list (r_list (r_pair (r_list r_nat) (r_list r_nat))) batches in
       let (_, evals) = Grid.run_history (fun k -> k) [] (r_nat kpl) (r_bool rr) (r_list r_nat latent) batches in
       w_list (fun (a, c) -> L [w_list w_nat a; w_list w_nat c]) evals
+  | "train_crash", [mx; na; kpl; latent; reqs; i; j; order] ->
+      (* the combined machine of Model/Train.v on keys only (A = unit): requests reqs completed, then the request for i
+         interrupted after the outputs of the first j indices of its batch were stored.  The batch is a SET in the code (the
+         neighbours come from a set), so the order in which its indices were processed is an input (`order`, as observed);
+         returns [stored keys after reqs, stored keys in the saved state (Crash.crash_store on the observed order),
+                  the model's batch (Train.batch_of, to be compared as a set), active set, candidate set after reqs,
+                  stored keys after the resumed request (Train.tstep from the saved state)] *)
+      let mx = r_list r_nat mx and na = r_nat na and kpl = r_nat kpl and latent = r_list r_nat latent in
+      let reqs = r_list (r_list r_nat) reqs and i = r_list r_nat i and j = r_nat j in
+      let order = r_list (r_list r_nat) order in
+      let f (_ : Grid.key) = () in
+      let t = Train.trun f mx na kpl true latent reqs Train.t0 in
+      let split = Train.split_idx na in
+      let saved = Crash.crash_store f t.Train.store kpl true latent (SL.map split order) j in
+      let tr = Train.tstep f mx na kpl true latent { Train.ms = t.Train.ms; Train.store = saved } i in
+      let keys st = w_list (fun ((a, c), ()) -> L [w_list w_nat a; w_list w_nat c]) st in
+      let batch = Train.batch_of mx na t.Train.ms i in
+      L [keys t.Train.store; keys saved; w_list (fun (a, b) -> L [w_list w_nat a; w_list w_nat b]) batch;
+         w_list w_idx t.Train.ms.Misc.active; w_list w_idx t.Train.ms.Misc.cand; keys tr.Train.store]
   | "grid_knots", [kpl; rr; latent; beta] ->
       w_list (w_list w_nat) (Grid.beta_to_knots (r_nat kpl) (r_bool rr) (r_list r_nat latent) (r_list r_nat beta))
   | "cost_alloc", [calls] ->
